@@ -208,7 +208,11 @@ class Real(object):
     def run(self, text, data, raw_context=None, timeout=3.0):
         # (the watchdog may fire between the evaluation and its own handlers: a second net around the whole call)
         try:
-            return self._run(text, data, raw_context, timeout)
+            r = self._run(text, data, raw_context, timeout)
+            if r[0] == ['e', 'timeout'] and timeout < 30:
+                # a busy machine can stall a 3 s watchdog: only a second, generous one counts
+                r = self._run(text, data, raw_context, 45.0)
+            return r
         except c08.Alarm:
             signal.setitimer(signal.ITIMER_REAL, 0)
             return ['e', 'timeout'], list(self.log)
